@@ -5,9 +5,28 @@
 #include <stdlib.h>
 #include <string.h>
 #include <stdint.h>
+#include <signal.h>
+#include <time.h>
+#include <unistd.h>
 
 #define HC_MAXLINE (1<<20)
 static char hc_line[HC_MAXLINE];
+
+/* watchdog of a case: SIGALRM after [sec] seconds of CPU time of this process (a wall-clock limit
+ * fires on a loaded machine although nothing hangs), with a wall-clock backstop 30 times larger for
+ * a process that blocks without consuming CPU.  hc_alarm(0) disarms both. */
+static timer_t hc_cpu_timer;
+static int hc_cpu_timer_ok = 0;
+static void hc_alarm(unsigned sec) {
+    struct itimerspec its; memset(&its, 0, sizeof its); its.it_value.tv_sec = (time_t)sec;
+    if (!hc_cpu_timer_ok || timer_settime(hc_cpu_timer, 0, &its, NULL) != 0) {
+        struct sigevent sev; memset(&sev, 0, sizeof sev);
+        sev.sigev_notify = SIGEV_SIGNAL; sev.sigev_signo = SIGALRM;
+        hc_cpu_timer_ok = (timer_create(CLOCK_PROCESS_CPUTIME_ID, &sev, &hc_cpu_timer) == 0)
+                          && (timer_settime(hc_cpu_timer, 0, &its, NULL) == 0);
+    }
+    alarm(hc_cpu_timer_ok ? sec * 30 : sec);
+}
 
 /* iterate over the non-comment lines of a case file */
 static FILE *hc_open(int argc, char **argv) {
